@@ -92,3 +92,163 @@ Proof.
   - cbn [arr]. inversion Hok; auto.
   - cbn [len]. lia.
 Qed.
+
+(* ------------------------------------------------------------------ *)
+(* RFC 1001 first-level encoding: encodeNBNSName / decodeNBNSName *)
+
+Lemma nb_chars_safe buf : forall todo i acc, (i + 2 * todo <= len buf)%nat -> safe (nb_chars buf i todo acc).
+Proof.
+  induction todo as [|t IH]; intros i acc H; cbn [nb_chars]; [apply safe_Ok|].
+  rewrite !idx_ok by lia. cbn [bind]. apply IH. lia.
+Qed.
+
+Theorem decodeNBNSName_total buf : wf buf -> safe (decodeNBNSName buf).
+Proof.
+  intros Hwf. unfold decodeNBNSName. destruct (Nat.ltb_spec (len buf) 34); [apply safe_Err|].
+  rewrite idx_ok by lia. cbn [bind]. destruct (negb _); [apply safe_Err|].
+  rewrite idx_ok by lia. cbn [bind]. destruct (negb _); [apply safe_Err|].
+  rewrite slfrom_ok by lia. cbn [bind].
+  apply safe_bind_ok; [apply nb_chars_safe; cbn [len]; lia|]. intros; apply safe_Ok.
+Qed.
+
+Definition nibbles : list N := map N.of_nat (seq 65 16).
+
+Lemma in_nibbles a : is_nibble_char a = true -> In a nibbles.
+Proof.
+  unfold is_nibble_char. intros H. apply andb_true_iff in H as [H1 H2].
+  apply in_map_iff. exists (N.to_nat a). split; [lia|]. apply in_seq. lia.
+Qed.
+
+Lemma nb_char_all : forallb (fun a => forallb (fun b => nb_char a b =? (a - 65) * 16 + (b - 65)) nibbles) nibbles = true.
+Proof. vm_compute. reflexivity. Qed.
+
+Lemma nb_char_nibble a b : is_nibble_char a = true -> is_nibble_char b = true ->
+  nb_char a b = (a - 65) * 16 + (b - 65).
+Proof.
+  intros Ha Hb. pose proof nb_char_all as H. rewrite forallb_forall in H.
+  specialize (H a (in_nibbles a Ha)). rewrite forallb_forall in H. specialize (H b (in_nibbles b Hb)).
+  apply N.eqb_eq in H. exact H.
+Qed.
+
+Lemma sub_cons (l : bytes) i n : (i < length l)%nat -> sub l i (S n) = nth i l 0 :: sub l (S i) n.
+Proof.
+  unfold sub. revert i. induction l as [|x xs IH]; intros i H; cbn [length] in H; [lia|].
+  destruct i; [reflexivity|]. cbn [skipn nth]. apply IH. lia.
+Qed.
+
+Lemma nb_chars_pairs buf : forall todo i acc raw, (i + 2 * todo <= len buf)%nat -> wf buf ->
+  nb_decode_pairs (sub (arr buf) i (2 * todo)) = Some raw ->
+  nb_chars buf i todo acc = Ok (acc ++ raw).
+Proof.
+  induction todo as [|t IH]; intros i acc raw H Hwf Hp.
+  - cbn in Hp. inversion Hp. cbn [nb_chars]. rewrite app_nil_r. reflexivity.
+  - unfold wf, cap in Hwf. replace (2 * S t)%nat with (S (S (2 * t))) in Hp by lia.
+    rewrite sub_cons in Hp by lia. rewrite sub_cons in Hp by lia. cbn [nb_decode_pairs] in Hp.
+    destruct (is_nibble_char (nth i (arr buf) 0)) eqn:Ea; [|discriminate].
+    destruct (is_nibble_char (nth (S i) (arr buf) 0)) eqn:Eb; [|discriminate]. cbn [andb] in Hp.
+    destruct (nb_decode_pairs (sub (arr buf) (S (S i)) (2 * t))) as [x|] eqn:Er; [|discriminate].
+    inversion Hp; subst raw. cbn [nb_chars]. rewrite !idx_ok by lia. cbn [bind].
+    replace (i + 1)%nat with (S i) by lia. rewrite nb_char_nibble by assumption.
+    replace (i + 2)%nat with (S (S i)) by lia.
+    rewrite (IH (S (S i)) _ x) by (auto; unfold wf, cap; lia). rewrite <- app_assoc. reflexivity.
+Qed.
+
+(* decodeNBNSName on a scope-less RFC 1001 name (any spare capacity): the 16 octets of the
+   reference, trailing spaces removed; 33 = bytes after the length octet *)
+Theorem decodeNBNSName_ref enc spare raw : nb_decode enc = Some raw ->
+  decodeNBNSName (of_bytes_cap enc spare) = Ok (33%nat, present_spaces raw).
+Proof.
+  unfold nb_decode. destruct enc as [|c r]; [discriminate|].
+  destruct (N.eqb_spec c 32) as [->|]; [|discriminate]. cbn [andb].
+  destruct (Nat.eqb_spec (length r) 33) as [L|]; [|discriminate]. cbn [andb].
+  destruct (N.eqb_spec (nth 32 r 1) 0) as [Z|]; [|discriminate]. intros Hp.
+  unfold decodeNBNSName, of_bytes_cap. cbn [len length]. rewrite L. cbn [Nat.ltb Nat.leb].
+  rewrite idx_ok by (cbn [len]; lia). cbn [bind arr Nat.sub nth app].
+  assert (nth 32 (r ++ spare) 0 = 0) as ->.
+  { rewrite app_nth1 by lia. rewrite (nth_indep r 0 1) by lia. exact Z. }
+  cbn [negb N.eqb]. rewrite idx_ok by (cbn [len]; lia). cbn [bind arr nth negb N.eqb Pos.eqb].
+  rewrite slfrom_ok by (cbn [len]; lia). cbn [bind arr len skipn Nat.sub].
+  rewrite (nb_chars_pairs _ 16 0 [] raw).
+  - cbn [bind app len]. unfold present_spaces, trim_right. rewrite trim_right_rev_strip. reflexivity.
+  - cbn [len]. lia.
+  - unfold wf, cap. cbn [arr len]. rewrite app_length. lia.
+  - cbn [arr]. unfold sub. cbn [skipn]. replace (2 * 16)%nat with 32%nat by lia.
+    rewrite firstn_app. replace (32 - length r)%nat with 0%nat by lia. cbn [firstn]. rewrite app_nil_r. exact Hp.
+Qed.
+
+Lemma flat_map_length2 {A} (f : A -> bytes) l : (forall x, length (f x) = 2%nat) -> length (flat_map f l) = (2 * length l)%nat.
+Proof. intros H. induction l as [|x r IH]; [reflexivity|]. cbn [flat_map]. rewrite app_length, H, IH. cbn [length]. lia. Qed.
+
+Lemma nb_decode_pairs_encode l : bytes_ok l ->
+  nb_decode_pairs (flat_map (fun c => [65 + c / 16; 65 + c mod 16]) l) = Some l.
+Proof.
+  induction l as [|c r IH]; intros H; [reflexivity|]. inversion H as [|? ? Hc Hr]; subst. cbv beta in Hc.
+  cbn [flat_map app nb_decode_pairs]. unfold is_nibble_char.
+  replace ((65 <=? 65 + c / 16) && (65 + c / 16 <=? 80)) with true by lia.
+  replace ((65 <=? 65 + c mod 16) && (65 + c mod 16 <=? 80)) with true by lia. cbn [andb].
+  rewrite IH by exact Hr. f_equal. f_equal. lia.
+Qed.
+
+(* the reference decoding inverts the reference encoding on every 16-octet name *)
+Theorem nb_decode_encode n16 : length n16 = 16%nat -> bytes_ok n16 -> nb_decode (nb_encode n16) = Some n16.
+Proof.
+  intros L Hok. unfold nb_decode, nb_encode.
+  set (X := flat_map (fun c => [65 + c / 16; 65 + c mod 16]) n16).
+  assert (length X = 32%nat) as LX.
+  { subst X. rewrite flat_map_length2 by reflexivity. unfold byte in *. lia. }
+  cbv beta iota. unfold bytes, byte in *. replace (32 =? 32) with true by reflexivity.
+  assert (length (X ++ [0]) = 33%nat) as -> by (rewrite app_length, LX; reflexivity).
+  assert (nth 32 (X ++ [0]) 1 = 0) as -> by (rewrite app_nth2 by lia; rewrite LX; reflexivity).
+  assert (firstn 32 (X ++ [0]) = X) as ->.
+  { rewrite firstn_app, LX, Nat.sub_diag, firstn_O, app_nil_r. rewrite <- LX. apply firstn_all. }
+  cbn [Nat.eqb andb N.eqb]. subst X. apply nb_decode_pairs_encode. exact Hok.
+Qed.
+
+(* encodeNBNSName is the reference encoding of the space-padded name *)
+Theorem encodeNBNSName_ref n : (length n <= 16)%nat -> encodeNBNSName n = nb_encode (nb_pad16 n).
+Proof.
+  intros L. unfold encodeNBNSName, nb_encode, nb_pad16.
+  destruct (Nat.ltb_spec 16 (length n)); [lia|].
+  assert (E : (if Nat.ltb (length n) 16 then n ++ repeat 32 (16 - length n) else n) = n ++ repeat 32 (16 - length n)).
+  { destruct (Nat.ltb_spec (length n) 16); [reflexivity|].
+    replace (16 - length n)%nat with 0%nat by lia. cbn [repeat]. rewrite app_nil_r. reflexivity. }
+  rewrite E. f_equal. f_equal. apply flat_map_ext. intros c.
+  rewrite N.shiftr_div_pow2. change 15 with (N.ones 4). rewrite N.land_ones. reflexivity.
+Qed.
+
+(* inverse: decoding the encoding of any 16-octet name gives the name back (trailing spaces removed) *)
+Theorem decode_encode_NBNSName n spare : length n = 16%nat -> bytes_ok n ->
+  decodeNBNSName (of_bytes_cap (encodeNBNSName n) spare) = Ok (33%nat, present_spaces n).
+Proof.
+  intros L Hok. rewrite encodeNBNSName_ref by lia.
+  assert (nb_pad16 n = n) as ->.
+  { unfold nb_pad16. rewrite L. cbn [Nat.sub repeat]. apply app_nil_r. }
+  apply decodeNBNSName_ref. apply nb_decode_encode; assumption.
+Qed.
+
+(* the whole list parseNodeNameArray returns is the reference list of unique names *)
+Theorem parseNodeNameArray_spec full : bytes_ok full ->
+  parseNodeNameArray (of_bytes full) =
+  match node_status_names full with Some l => Ok l | None => Err EFrameLen end.
+Proof.
+  intros Hok. unfold node_status_names, node_status_wf.
+  destruct full as [|n rest]; [reflexivity|].
+  unfold parseNodeNameArray, of_bytes.
+  destruct (Nat.ltb_spec (len {| arr := n :: rest; len := length (n :: rest) |}) 1) as [Hx|_];
+    [cbn [len length] in Hx; lia|].
+  rewrite idx_ok by (cbn [len length]; lia). cbn [bind].
+  rewrite slfrom_ok by (cbn [len length]; lia). cbn [bind].
+  cbn [arr len length nth skipn].
+  replace (S (length rest) - 1)%nat with (length rest) by lia.
+  destruct (Nat.ltb_spec (length rest) (N.to_nat n * 18)) as [Hshort|Hfit].
+  { destruct (Nat.leb_spec (1 + 18 * N.to_nat n) (S (length rest))); [lia|reflexivity]. }
+  destruct (Nat.leb_spec (1 + 18 * N.to_nat n) (S (length rest))); [|lia].
+  rewrite nna_loop_spec.
+  - cbn [app]. rewrite node_names_shift.
+    assert (view {| arr := rest; len := length rest |} = rest) as ->.
+    { unfold view. cbn [arr len]. apply firstn_all. }
+    replace (18 * 0)%nat with 0%nat by lia. reflexivity.
+  - unfold wf, cap. cbn [arr len]. lia.
+  - cbn [arr]. inversion Hok; auto.
+  - cbn [len]. lia.
+Qed.
